@@ -227,7 +227,7 @@ fn has_dup(r: &RN) -> bool {
 pub fn loader_inputs(tier: &str, seed: u64, shard: u64, nshards: u64, scale: f64, stats: &mut Stats, f: &mut dyn FnMut(&str, &mut Stats)) {
     let thorough = tier == "thorough";
     let b = family::Budget {
-        g1_len: if thorough { 5 } else { 4 },
+        g1_len: if thorough { 5 } else if tier == "miri" { 1 } else { 4 },
         g1_alphas: if thorough { 2 } else { 1 },
         g1_sampled: 0,
         random: ((if thorough { 2_000_000.0 } else { 90_000.0 }) * scale) as u64,
